@@ -43,16 +43,24 @@ func genC28(r *Rand, tier string) Case {
 			w.Progs = append(w.Progs, c03W{})
 			continue
 		}
-		g := &c03gen{r: r, budget: 14, fpfx: fmt.Sprintf("r%d", i)}
+		var g *c03gen
 		var p c03W
-		p.Pfx = g.fpfx
-		p.NoPre = true
-		nf := r.Intn(3)
-		for k := 0; k < nf; k++ {
-			p.Funcs = append(p.Funcs, g.block(1, true, 1+r.Intn(3)))
+		for budget := 14; ; budget = budget*2/3 + 1 {
+			// keep the program small (see c03Cost): the step budget is there to detect hangs
+			g = &c03gen{r: r, budget: budget, fpfx: fmt.Sprintf("r%d", i)}
+			p = c03W{Pfx: g.fpfx, NoPre: true}
+			nf := r.Intn(3)
+			var fcost []int
+			for k := 0; k < nf; k++ {
+				p.Funcs = append(p.Funcs, g.block(1, true, 1+r.Intn(3)))
+				fcost = append(fcost, 1+c03Cost(p.Funcs[k], nil))
+			}
+			g.nfuncs = nf
+			p.Main = g.block(0, false, 1+r.Intn(5))
+			if c03Cost(p.Main, fcost) <= 400 || budget <= 3 {
+				break
+			}
 		}
-		g.nfuncs = nf
-		p.Main = g.block(0, false, 1+r.Intn(5))
 		// statements that end processes the unusual way
 		for k := 0; k < r.Intn(3); k++ {
 			var s string
